@@ -43,8 +43,9 @@ ASSUMPTIONS = [
     "chirp_length (extra, USB2 7.1.7.5 TUCH >= 1 ms) is only asserted when bus_busy was low since the reset was reported",
 ]
 BOUNDS = "quick: constants B K=26 all inputs free (two assertion families), constants A K=43 with the reset and the " \
-         "device chirp scripted in cycles 0..12 and every input free from cycle 13, constants A K=80 free from cycle 37 (after a scripted clean handshake); thorough: constants B K=44 and " \
+         "device chirp scripted in cycles 0..12 and every input free from cycle 13, constants A K=80 free from cycle 37 (after a scripted clean handshake), constants A K=68 free from cycle 43 after a scripted aborted handshake (2 pairs + timeout); thorough: constants B K=44 and " \
          "constants A K=50 all free, A K=56 free from cycle 13, A K=84 free from cycle 37 (after a scripted clean " \
+         "handshake) and from cycle 43 after an aborted handshake of 1 or 2 pairs (after a scripted " \
          "handshake); static audit of the real constants"
 OUTSIDE = "real-time constants in the sequential clauses (scaled only; the real values are audited statically); " \
           "which of FULL/LOW is selected on fallback; device.py wiring of the restriction inputs; " \
@@ -63,7 +64,8 @@ SE0, J, K = 0b00, 0b01, 0b10
 ASSERTS = ["hs_entry_chirp", "hs_entry_pairs", "no_chirp_restricted", "leave_hs", "fallback_time", "fallback_state",
            "reset_active", "reset_suspended", "reset_in_hs", "suspend", "chirp_length"]
 COVERS = ["hs_entry", "hs_resume", "chirp_start", "restricted_reset", "leave_hs", "fallback", "reset_active",
-          "reset_suspended", "reset_hs", "reset_novbus", "suspend_fs", "suspend_hs", "chirp_length", "short_chirp_state"]
+          "reset_suspended", "reset_hs", "reset_novbus", "suspend_fs", "suspend_hs", "chirp_length", "short_chirp_state",
+          "second_chirp", "hs_entry_second"]
 
 
 def scaled_class(consts):
@@ -203,6 +205,11 @@ class ResetHarness(Harness):
                 with m.Elif(expect_j & (line == J) & (cur_run >= T["T2P5US"])):
                     m.d.usb += [expect_j.eq(0), pairs.eq(Mux(pairs == 3, 3, pairs + 1))]
 
+        g_fell_back = Signal(name="g_fell_back")   # an earlier handshake ended in the FS/LS fallback
+        with m.If(cm_d1 & ~chirp_mode & fs_op):
+            m.d.usb += g_fell_back.eq(1)
+        self.obs("g_fell_back", g_fell_back)
+
         # ---- assertions
         v, c = self.v, self.c
         resume_ok = Signal(name="resume_ok")
@@ -246,6 +253,9 @@ class ResetHarness(Harness):
             c["suspend_hs"].eq(susp_rise & g_win),
             c["chirp_length"].eq(chirp_end & ~g_busy),
             c["short_chirp_state"].eq(hs_rise & (ph == 3) & g_short),
+            # a later handshake after an earlier one that failed (fell back to FS/LS)
+            c["second_chirp"].eq(chirp_end & g_fell_back),
+            c["hs_entry_second"].eq(hs_rise & (ph == 3) & g_fell_back),
         ]
         return m
 
@@ -317,6 +327,24 @@ def _prefix_layer(P):
             "low_speed_only": pin(0), "full_speed_only": pin(0)}
 
 
+def _aborted_handshake_layer(k):
+    """constants A: first reset + device chirp as in _prefix_layer, then a host chirp that is aborted after k in {1,2}
+    valid 4-cycle K-J pairs (line returns to SE0), the 2.5 ms timeout (timer == 28 at cycle 41), fallback to full speed
+    (IS_LOW_OR_FULL_SPEED at 42 sees J) -- all scripted; every input is free from cycle 43 on (second bus reset)."""
+    P = 43
+    def line(t):
+        if t >= P:
+            return None
+        if t == 0 or t == 42:
+            return J
+        if 13 <= t < 13 + 8 * k:
+            return K if ((t - 13) // 4) % 2 == 0 else J
+        return SE0
+    pin = lambda val: (lambda t: None if t >= P else val)
+    return {"line_state": line, "disconnect": pin(0), "bus_busy": pin(0), "vbus_connected": pin(1),
+            "low_speed_only": pin(0), "full_speed_only": pin(0)}
+
+
 def queries(tier):
     fa = lambda: ResetHarness(CONST_A)
     fb = lambda: ResetHarness(CONST_B)
@@ -345,6 +373,11 @@ def queries(tier):
                   covers=["reset_hs", "suspend_hs", "hs_resume"], layer=_prefix_layer(37), split=False, timeout=600,
                   desc="constants A, layer: scripted clean reset + HS handshake in cycles 0..36, every input free from cycle "
                        "37: HS reset vs suspend discrimination, restriction during the window, resume from HS suspend"),
+            Query("bmc_A_second_k2", fa, 68, asserts=["hs_entry_pairs", "hs_entry_chirp"], covers=["second_chirp"],
+                  layer=_aborted_handshake_layer(2), split=False, timeout=600,
+                  desc="constants A, layer: first reset with a host chirp aborted after 2 valid pairs and the 2.5 ms timeout "
+                       "scripted in cycles 0..42, every input free from cycle 43: state left over from the failed handshake "
+                       "must not count in the next bus reset"),
             Query("cosim_A", fa, 0, kind="cosim", cosim_cycles=150),
             Query("cosim_B", fb, 0, kind="cosim", cosim_cycles=150),
         ]
@@ -362,6 +395,11 @@ def queries(tier):
               layer=_prefix_layer(37),
               desc="constants A, layer: scripted clean reset + HS handshake in cycles 0..36, all inputs free from cycle "
                    "37 to 84: HS reset vs suspend discrimination, resume from HS suspend, restrictions in HS"),
+        *[Query(f"bmc_A_second_k{k}", fa, 84, asserts=["hs_entry_pairs", "hs_entry_chirp", "fallback_time", "no_chirp_restricted"],
+                covers=["second_chirp", "hs_entry_second"], layer=_aborted_handshake_layer(k), timeout=900,
+                desc=f"constants A, layer: first handshake aborted after {k} valid pair(s) + timeout scripted in cycles 0..42, "
+                     "every input free from cycle 43 to 84 (second bus reset, full second handshake reachable)")
+          for k in (1, 2)],
         Query("cosim_A", fa, 0, kind="cosim", cosim_cycles=1500),
         Query("cosim_B", fb, 0, kind="cosim", cosim_cycles=1500),
     ]
